@@ -354,6 +354,16 @@ func c08Canon(l ProofList) string {
 	return sb.String()
 }
 
+func c08NoRev(pks []*gabikeys.PublicKey) []*gabikeys.PublicKey {
+	out := make([]*gabikeys.PublicKey, len(pks))
+	for i, pk := range pks {
+		c := *pk
+		c.G, c.H, c.ECDSA, c.ECDSAString = nil, nil, nil, ""
+		out[i] = &c
+	}
+	return out
+}
+
 type c08Seed struct {
 	name  string
 	specs []vsSpec
@@ -455,6 +465,8 @@ func TestVerifC08(t *testing.T) {
 			return x
 		}
 		verify("ProofList.Verify", func() bool { return reparse().Verify(d.pks, vfContext, vfNonce, d.sig, nil) })
+		// well-formed keys without revocation support (no ECDSA key, no G/H)
+		verify("ProofList.Verify(keys without revocation part)", func() bool { return reparse().Verify(c08NoRev(d.pks), vfContext, vfNonce, d.sig, nil) })
 		if len(l) != len(d.pks) && len(l) > 0 {
 			pks := make([]*gabikeys.PublicKey, len(l))
 			for i := range pks {
